@@ -5,7 +5,7 @@ from harness import common, refdes
 
 PROP = 'C14'
 RULE = ("(PIN 4..12 digits, PAN, key index 0..9, 2-/3-key DES key) with keys SEARCHED so that the second decimalisation "
-        "scan contributes 0,1,2,3,4 digits (class counts in the distribution); calculate_pvv and the to_pvv mix-in; key "
+        "scan contributes 0,1,2,3,4 digits (class counts in the distribution); calculate_pvv and the to_pvv mix-in (also ONE object asked repeatedly with other index / PAN / key first); key "
         "component lists of 1..4 components incl. repeated components and permutations; KCV lengths; encrypted zone key. "
         "PVV/KCV/ZMK compared with a from-scratch DES/3DES reference + independent decimalisation, and with the Lean model "
         "(cipher output supplied by the reference). Non-trivial = every case; distinct = distinct case")
@@ -86,7 +86,15 @@ def impl_eval(case):
                 'tags': [f'scan2:{nsub}', 'via:stub']}
     if k == 'pvv':
         pin, pan, idx, key = case['pin'], case['pan'], case['idx'], case['key']
-        if case.get('via') == 'mixin':
+        if case.get('via') == 'mixin-reuse':
+            # ONE pin block object asked several times: other key indexes / PANs / keys first, then the observed call
+            def reuse():
+                o = pb.Iso0TDESPinBlockWithVisaPVV(pin, card_number=pan)
+                for other in case['before']:
+                    o.to_pvv(other.get('key', key), key_index=other.get('idx', idx), card_number=other.get('pan', pan))
+                return o.to_pvv(key, key_index=idx, card_number=pan)
+            st, out = guarded(reuse)
+        elif case.get('via') == 'mixin':
             st, out = guarded(lambda: pb.Iso0TDESPinBlockWithVisaPVV(pin, card_number=pan).to_pvv(key, key_index=idx))
         elif case.get('via') == 'mixin4':
             st, out = guarded(lambda: pb.Iso4AESPinBlockWithVisaPVV(pin, random_value=5).to_pvv(
@@ -201,6 +209,12 @@ def explore(run, tier):
     for _ in range(3000 if tier == 'quick' else 100000):
         cases.append({'k': 'pvv', 'pin': digits(rng.randrange(4, 13)), 'pan': digits(rng.randrange(13, 20)),
                       'idx': rng.randrange(10), 'key': rkey(rng.choice([16, 24]))})
+    # one pin block object asked repeatedly (other key index / PAN / key first)
+    for i in range(120 if tier == 'quick' else 3000):
+        pin, pan, idx, key = digits(rng.randrange(4, 13)), digits(rng.randrange(13, 20)), rng.randrange(10), rkey(16)
+        before = [{'idx': (idx + 1 + j) % 10} if (i + j) % 3 == 0 else {'pan': digits(16)} if (i + j) % 3 == 1 else {'key': rkey(16)}
+                  for j in range(rng.randrange(1, 4))]
+        cases.append({'k': 'pvv', 'pin': pin, 'pan': pan, 'idx': idx, 'key': key, 'via': 'mixin-reuse', 'before': before})
     for _ in range(500 if tier == 'quick' else 10000):
         n = rng.randrange(1, 5)
         parts = [rkey(16) for _ in range(n)]
